@@ -76,6 +76,13 @@ def cases():
                 "const_cast": [store, Return(B("+", B("*", x, F(2.0)), I(1)))] if ty == FLOAT else [store, Return(B("+", B("*", x, I(2)), F(1.0)))],
                 "const_cast_cmp": [store, If(B("<", x, I(3) if ty == FLOAT else F(3.0)), Block([Return(one)])), Return(x)],
             }
+            # int literals that single precision cannot hold, converted to float: evaluated by the VM when not optimised,
+            # folded at compile time when optimised
+            if ty == FLOAT:
+                consumers["big_const_cast"] = [store, Return(B("+", x, I(16777217)))]
+                consumers["big_const_init"] = [Decl(FLOAT, "big", I(33554433)), store, Return(B("-", B("+", x, V("big", FLOAT)), F(33554432.0)))]
+                consumers["big_const_construct"] = [store, Decl(F2, "v", Construct(F2, [I(2147483647), I(123456789)])),
+                                                    Return(B("+", B("-", Swizzle(V("v", F2), "x"), F(2147483000.0)), B("-", Index(V("v", F2), I(1), FLOAT), F(123456000.0))))]
             if ty == INT:
                 consumers["index"] = [Decl(at, "t"), ExprStmt(Assign("=", Index(V("t", at), I(2), INT), I(40))), Decl(INT, "j"),
                                       ExprStmt(Assign("=", V("j", INT), I(2))), store, Return(B("+", Index(V("t", at), V("j", INT), INT), x))]
